@@ -54,6 +54,7 @@ def gen_case(ch: Chooser, excl=()):
         for u in uses:
             lines.append(f"  use mod{u}, only: " + ", ".join(f"{p}_{u} => {p}" for p in defined[u][:1]) if defined[u] else f"  use mod{u}")
         lines.append("  implicit none")
+        lines.append(f"  integer :: marker{i} = {i}")
         if i == 0:
             lines += ["  type base_t", "    !! the base type", "    integer :: id", "  end type base_t"]
             base_mod = m
@@ -70,6 +71,9 @@ def gen_case(ch: Chooser, excl=()):
         defined[i] = procs
         for p in procs:
             lines += [f"  subroutine {p}()", f"    !! {p} of {m}"]
+            if uses and ch.bool(1, 3):
+                u0 = ch.choice(sorted(uses))
+                lines.append(f"    use mod{u0}, only: marker{u0}")      # a USE of its own (procedures have 'uses' graphs too)
             for q in procs:
                 if q != p and ch.bool(1, 2):
                     lines.append(f"    call {q}()")
